@@ -24,7 +24,7 @@ MANIFEST_ENTRY = {
                  "contents behave identically (history independence); exhaustive short histories on the real server compared with a "
                  "fresh server and with `ironplcc check`",
     "text": "Theorems for every message sequence: one publishDiagnostics per didOpen/didChange, for that document and version; what is "
-            "published is the analysis applied to the contents after the edit (last change wins, an empty change list keeps them); two "
+            "published is the analysis applied to the contents after the edit (last change wins, an empty change list keeps them); after any history the server holds for each document exactly what that document's own last edits left (C11_contents_are_the_last_edits: said without the store); two "
             "servers whose stored contents agree write identical frames for every continuation, assuming the analysis is a function of "
             "the contents (C06's order-independence, stated as a hypothesis). Tied to lsp.rs/lsp_project.rs/project.rs by ordered frame "
             "correspondence. The equality with a fresh server and with `ironplcc check` (codes and start positions per file) is "
